@@ -146,6 +146,21 @@ func Start(id, level string) *Run {
 		// witnesses of earlier runs must not be mistaken for this run's
 		_ = os.RemoveAll(filepath.Join(root, "replay", id))
 	}
+	if ck := os.Getenv("VERIF_CHECKPOINT"); ck != "" && !r.isChild {
+		// the counts reached so far, for the driver: should the process be brought down by a goroutine of the library
+		// (tools/crash_classify.py) the evidence still says what had been explored until then
+		go func() {
+			for {
+				time.Sleep(time.Second)
+				r.mu.Lock()
+				b, _ := json.Marshal(map[string]any{"evaluations": r.evaluations, "distinct_nontrivial": len(r.distinct), "rule": r.rule})
+				r.mu.Unlock()
+				if os.WriteFile(ck+".tmp", b, 0o644) == nil {
+					_ = os.Rename(ck+".tmp", ck)
+				}
+			}
+		}()
+	}
 	return r
 }
 
@@ -187,7 +202,7 @@ func (r *Run) Rand(stream string, index int) *rand.Rand {
 }
 
 // Rule records how cases are generated and what non-trivial/distinct mean.
-func (r *Run) Rule(s string) { r.rule = s }
+func (r *Run) Rule(s string) { r.mu.Lock(); r.rule = s; r.mu.Unlock() }
 
 // Assume records an assumption / trusted-base statement.
 func (r *Run) Assume(s ...string) { r.assumptions = append(r.assumptions, s...) }
